@@ -180,7 +180,16 @@ func NewRunner(rec *Recorder) *Runner {
 	return r
 }
 
+// keptValue: a drawn value and what it looked like when it was drawn (a value belongs to the test case that drew it: nothing the
+// library does later -- further draws, other generators -- may change it)
+type keptValue struct {
+	label, gen string
+	v          any
+	dval       string
+}
+
 type inv struct {
+	kept  *[]keptValue
 	r     *Runner
 	t     *rapid.T
 	id    int
@@ -224,6 +233,7 @@ func (r *Runner) Prop(p *PropSpec) func(*rapid.T) {
 		in.top = in.id
 		r.curTop = in.id
 		in.ctxs = &[]ctxRef{}
+		in.kept = &[]keptValue{}
 		prevCtxs := r.lastCtxs
 		r.lastCtxs = nil
 		r.curCtxs = in.ctxs
@@ -275,6 +285,11 @@ func (r *Runner) Prop(p *PropSpec) func(*rapid.T) {
 			}
 		}
 		in.run(ops)
+		for _, kv := range *in.kept {
+			if now := deepVal(kv.v); now != kv.dval {
+				r.rec.Emit("contract", F{"inv": in.id, "gen": kv.gen, "c": "kept", "ok": false, "label": kv.label})
+			}
+		}
 		done = true
 	}
 }
@@ -378,6 +393,9 @@ func (in *inv) step(op *Op) {
 			in.vars[op.Var] = v
 		}
 		f := F{"inv": in.id, "label": op.Label, "val": fmtVal(v), "dval": deepVal(v), "gen": b.Desc}
+		if r.rec.Wants("contract") && in.kept != nil {
+			*in.kept = append(*in.kept, keptValue{op.Label, b.Desc, v, f["dval"].(string)})
+		}
 		if r.rec.Wants("contract") && !(r.rec.Wants("final-contracts-only") && CurPhase.Load() != "final") {
 			c := b.Check(v)
 			c["inv"], c["gen"] = in.id, b.Desc
@@ -538,7 +556,7 @@ func (in *inv) step(op *Op) {
 			g := g
 			go func() {
 				defer wg.Done()
-				sub := &inv{r: r, t: t, id: in.id, top: in.top, vars: in.vars, ctxs: in.ctxs, g: g + 1, grp: grp, quiet: op.Text == "quiet"}
+				sub := &inv{r: r, t: t, id: in.id, top: in.top, vars: in.vars, ctxs: in.ctxs, kept: in.kept, g: g + 1, grp: grp, quiet: op.Text == "quiet"}
 				<-start
 				for rep := 0; rep < 1+op.Ms; rep++ {
 					sub.run(op.Body)
@@ -561,7 +579,7 @@ func (in *inv) step(op *Op) {
 			g := g
 			go func() {
 				defer wg.Done()
-				sub := &inv{r: r, t: t, id: in.id, top: in.top, vars: in.vars, ctxs: in.ctxs, g: g + 1, quiet: op.Text == "quiet"}
+				sub := &inv{r: r, t: t, id: in.id, top: in.top, vars: in.vars, ctxs: in.ctxs, kept: in.kept, g: g + 1, quiet: op.Text == "quiet"}
 				for rep := 0; rep < 1+op.Ms; rep++ {
 					sub.run(op.Body)
 				}
@@ -619,7 +637,7 @@ func (in *inv) step(op *Op) {
 				r.rec.Emit("sm.action.begin", F{"inv": in.id, "name": name})
 				done := false
 				defer func() { r.rec.Emit("sm.action.end", F{"inv": in.id, "name": name, "ret": done, "last": in.last}) }()
-				sub := &inv{r: r, t: t2, id: in.id, top: in.top, vars: in.vars, ctxs: in.ctxs}
+				sub := &inv{r: r, t: t2, id: in.id, top: in.top, vars: in.vars, ctxs: in.ctxs, kept: in.kept}
 				defer func() { in.last = sub.last }()
 				sub.last = ""
 				sub.run(body)
@@ -632,7 +650,7 @@ func (in *inv) step(op *Op) {
 				r.rec.Emit("sm.inv.begin", F{"inv": in.id})
 				done := false
 				defer func() { r.rec.Emit("sm.inv.end", F{"inv": in.id, "ret": done}) }()
-				sub := &inv{r: r, t: t2, id: in.id, top: in.top, vars: in.vars, ctxs: in.ctxs}
+				sub := &inv{r: r, t: t2, id: in.id, top: in.top, vars: in.vars, ctxs: in.ctxs, kept: in.kept}
 				defer func() { in.last = sub.last }()
 				sub.run(body)
 				done = true
